@@ -180,15 +180,22 @@ type wspClient struct {
 // scheduling delay explains.
 var wspWrapTimeout = 120 * time.Second
 
-func wspDial(addr, path string) (*wspClient, error) {
-	d := websocket.Dialer{Subprotocols: []string{"control"}, HandshakeTimeout: 5 * time.Second}
+func wspDial(addr, path string) (w *wspClient, err error) {
+	d := websocket.Dialer{Subprotocols: []string{"control"}, HandshakeTimeout: 120 * time.Second}
 	ctl, _, err := d.Dial("ws://"+addr+"/streams"+path, nil)
 	if err != nil {
 		return nil, err
 	}
-	w := &wspClient{ctl: ctl}
+	w = &wspClient{ctl: ctl}
+	defer func() {
+		if err != nil { // a half-built client must not leave its sessions open on the server
+			w.close()
+			w = nil
+		}
+	}()
 	w.seq++
 	ctl.WriteMessage(websocket.TextMessage, []byte(fmt.Sprintf("WSP/1.1 INIT\r\nproto: rtsp\r\nhost: 127.0.0.1\r\nport: 554\r\nseq: %d\r\n\r\n", w.seq)))
+	ctl.SetReadDeadline(time.Now().Add(wspWrapTimeout))
 	_, msg, err := ctl.ReadMessage()
 	if err != nil {
 		return nil, err
@@ -201,7 +208,7 @@ func wspDial(addr, path string) (*wspClient, error) {
 	if w.channel == "" {
 		return nil, fmt.Errorf("no channel in INIT response %q", msg)
 	}
-	d2 := websocket.Dialer{Subprotocols: []string{"data"}, HandshakeTimeout: 5 * time.Second}
+	d2 := websocket.Dialer{Subprotocols: []string{"data"}, HandshakeTimeout: 120 * time.Second}
 	data, _, err := d2.Dial("ws://"+addr+"/streams"+path, nil)
 	if err != nil {
 		return nil, err
@@ -212,8 +219,10 @@ func wspDial(addr, path string) (*wspClient, error) {
 	for try := 0; ; try++ {
 		w.seq++
 		data.WriteMessage(websocket.TextMessage, []byte(fmt.Sprintf("WSP/1.1 JOIN\r\nchannel: %s\r\nseq: %d\r\n\r\n", w.channel, w.seq)))
+		data.SetReadDeadline(time.Now().Add(wspWrapTimeout))
 		_, msg, err = data.ReadMessage()
 		if err == nil && strings.Contains(string(msg), " 200 ") {
+			data.SetReadDeadline(time.Time{})
 			return w, nil
 		}
 		if try >= 5 || err != nil || !strings.Contains(string(msg), " 404 ") {
